@@ -124,6 +124,22 @@ def run(ctx):
                                       tags=["c07.uri." + kind])
                     req.append("reach|%s|%s" % (enc(ref), enc(caller)))
                     got.append((case, enc(want_uri)))
+            # the same relative string written in two templates of different directories, within one render
+            for kind, call in [("get_namespace", "${local.get_namespace('h.html').body()}"), ("get_template", "${local.get_template('h.html').render()}"),
+                               ("include_file", "<% local.include_file('h.html') %>"), ("include", '<%include file="h.html"/>'), ("namespace", '<%namespace name="hh" file="h.html"/>${hh.body()}')]:
+                ctx.evaluations += 1
+                lk = TemplateLookup()
+                lk.put_string("/a/h.html", "[h-of-a]")
+                lk.put_string("/b/h.html", "[h-of-b]")
+                lk.put_string("/b/part.html", "b:" + call)
+                lk.put_string("/a/page.html", "a:" + call + '<%include file="/b/part.html"/>')
+                try:
+                    out = lk.get_template("/a/page.html").render()
+                except Exception as e:  # noqa
+                    out = "raised %s: %s" % (type(e).__name__, str(e)[:80])
+                if out != "a:[h-of-a]b:[h-of-b]":
+                    ctx.violation({"kind": kind, "rendered": out, "expected": "a:[h-of-a]b:[h-of-b]"}, "a relative URI resolves against the template it is written in, also the second time in a render",
+                                  tags=["c07.uri.same-string-two-dirs." + kind])
             # unresolvable
             ctx.evaluations += 1
             lk = TemplateLookup()
@@ -147,7 +163,8 @@ def run(ctx):
     req2, got2 = [], []
     for _ in range(nb):
         nns = rng.randint(1, 3)
-        lk = TemplateLookup()
+        strict = rng.random() < 0.5
+        lk = TemplateLookup(strict_undefined=strict)
         specs = []
         main = []
         # an inheritance chain behind namespace file 0: f0 inherits g0
@@ -206,7 +223,7 @@ def run(ctx):
             enc_names = lambda l: "%d %s" % (len(l), " ".join(str(NAMES.index(y)) for y in l))  # noqa
             inh = "-" if inh_defs is None else "+ NS %d 0 %s %s -" % (10 + i, enc_names(inh_defs), enc_names(inh_defs))
             return "NS %d %s %s %s %s" % (i, enc_names(inline), enc_names(file_defs), enc_names(file_defs), inh)
-        case = {"main": "".join(main), "name": x_eff, "context": sorted(cv), "namespaces": repr(specs)}
+        case = {"main": "".join(main), "name": x_eff, "context": sorted(cv), "namespaces": repr(specs), "strict_undefined": strict}
         if qualified:
             sp = specs[i_q]
             req2.append("get|%s %d" % (ns_tok(sp[0], sp[1], sp[2], sp[3]), NAMES.index(x_eff)))
@@ -222,7 +239,7 @@ def run(ctx):
     P = ["x", "y", "z", "w"]
     for _ in range(150 if tier == "quick" else 4000):
         params = rng.sample(P, rng.randint(0, 3))
-        given = {p: 100 + P.index(p) for p in rng.sample(P, rng.randint(0, 2)) if p in params}
+        given = {p: rng.choice([100 + P.index(p), 0, 0]) for p in rng.sample(P, rng.randint(0, 2)) if p in params}
         data = {p: 200 + P.index(p) for p in rng.sample(P, rng.randint(0, 4))}
         lk = TemplateLookup()
         lk.put_string("/inc.html", '<%%page args="%s"/>' % ", ".join("%s=-1" % p for p in params) + "|".join("%s=${%s}" % (p, p) for p in params)
